@@ -212,4 +212,4 @@ def handleC15 (j : Json) : Except String Verdict := do
   | _ => return .bad s!"unknown kind {k}"
 
 def main (args : List String) : IO Unit :=
-  if args.contains "--xform" then xformLoop xform else runDriver handleC15
+  if args.contains "--xform" then xformLoop xform else runDriver (single handleC15)
